@@ -97,7 +97,7 @@ def compare(col, tokens, s, icpt, flags, avail, tag):
             col.violation(key, detail, sig="rejects-valid" + suffix)
     else:
         if got[0] == "OK":
-            col.violation(key, detail, sig="accepts-invalid")
+            col.violation(key, detail, sig="accepts-invalid" + suffix)
         else:
             col.count("agree-reject")
     return ref, got
